@@ -44,6 +44,63 @@ type FlowDef struct {
 	// for inter-node flows whose destination node never reports (merging a destination-node record
 	// into a record that lacks the element is not something the library supports).
 	OmitPeerPod bool `json:"omit_peer_pod,omitempty"`
+	// OmitS / OmitD: correlate elements the source node's / the destination node's exporter does not
+	// have in its template at all (exporters of different versions during an upgrade): only elements
+	// that describe the other end (see OmittableS / OmittableD). The merged record must still carry
+	// what the other node supplied.
+	OmitS []string `json:"omit_s,omitempty"`
+	OmitD []string `json:"omit_d,omitempty"`
+}
+
+// OmittableS / OmittableD: what a source-node / destination-node exporter may lack.
+var (
+	OmittableS = []string{"destinationPodName", "destinationPodNamespace", "destinationNodeName", "destinationServicePort", "ingressNetworkPolicyRuleAction", "ingressNetworkPolicyRulePriority", "destinationClusterIP"}
+	OmittableD = []string{"sourcePodName", "sourcePodNamespace", "sourceNodeName", "egressNetworkPolicyRuleAction", "destinationClusterIP", "destinationServicePort"}
+)
+
+func has(l []string, n string) bool {
+	for _, x := range l {
+		if x == n {
+			return true
+		}
+	}
+	return false
+}
+
+// Supplied returns what each node's records actually carry: the configured values without the
+// elements its exporter lacks.
+func (f FlowDef) Supplied() (s, d Corr) {
+	z := func(c Corr, omit []string) Corr {
+		if has(omit, "sourcePodNamespace") {
+			c.SrcNS = ""
+		}
+		if has(omit, "sourceNodeName") {
+			c.SrcNode = ""
+		}
+		if has(omit, "destinationPodNamespace") {
+			c.DstNS = ""
+		}
+		if has(omit, "destinationNodeName") {
+			c.DstNode = ""
+		}
+		if has(omit, "destinationServicePort") {
+			c.SvcPort = 0
+		}
+		if has(omit, "ingressNetworkPolicyRuleAction") {
+			c.IngAct = 0
+		}
+		if has(omit, "egressNetworkPolicyRuleAction") {
+			c.EgrAct = 0
+		}
+		if has(omit, "ingressNetworkPolicyRulePriority") {
+			c.Priority = 0
+		}
+		if has(omit, "destinationClusterIP") {
+			c.Cluster = ""
+		}
+		return c
+	}
+	return z(f.CorrS, f.OmitS), z(f.CorrD, f.OmitD)
 }
 
 // Corr holds the correlate fields one node can supply about a flow.
@@ -284,25 +341,50 @@ func RecordElements(f FlowDef, r Rec) []entities.InfoElementWithValue {
 		}
 	}
 	u8("flowType", flowType)
-	str("sourcePodName", srcPod)
-	if !(f.OmitPeerPod && f.Kind != KindIntraNode && dstPod == "") {
+	var omit []string
+	if f.NeedsCorrelation() {
+		omit = f.OmitS
+		if r.Side == "D" {
+			omit = f.OmitD
+		}
+	}
+	if !has(omit, "sourcePodName") {
+		str("sourcePodName", srcPod)
+	}
+	if !(f.OmitPeerPod && f.Kind != KindIntraNode && dstPod == "") && !has(omit, "destinationPodName") {
 		str("destinationPodName", dstPod)
 	}
-	str("sourcePodNamespace", c.SrcNS)
-	str("sourceNodeName", c.SrcNode)
-	str("destinationPodNamespace", c.DstNS)
-	str("destinationNodeName", c.DstNode)
-	if f.V6 {
-		els = append(els, entities.NewIPAddressInfoElement(IE("destinationClusterIPv6"), ip(c.Cluster, true)))
-	} else {
-		els = append(els, entities.NewIPAddressInfoElement(IE("destinationClusterIPv4"), ip(c.Cluster, false)))
+	if !has(omit, "sourcePodNamespace") {
+		str("sourcePodNamespace", c.SrcNS)
 	}
-	u16("destinationServicePort", c.SvcPort)
-	u8("ingressNetworkPolicyRuleAction", c.IngAct)
-	if !(f.OmitEgress && c.EgrAct == 0 && !f.NeedsCorrelation()) {
+	if !has(omit, "sourceNodeName") {
+		str("sourceNodeName", c.SrcNode)
+	}
+	if !has(omit, "destinationPodNamespace") {
+		str("destinationPodNamespace", c.DstNS)
+	}
+	if !has(omit, "destinationNodeName") {
+		str("destinationNodeName", c.DstNode)
+	}
+	if !has(omit, "destinationClusterIP") {
+		if f.V6 {
+			els = append(els, entities.NewIPAddressInfoElement(IE("destinationClusterIPv6"), ip(c.Cluster, true)))
+		} else {
+			els = append(els, entities.NewIPAddressInfoElement(IE("destinationClusterIPv4"), ip(c.Cluster, false)))
+		}
+	}
+	if !has(omit, "destinationServicePort") {
+		u16("destinationServicePort", c.SvcPort)
+	}
+	if !has(omit, "ingressNetworkPolicyRuleAction") {
+		u8("ingressNetworkPolicyRuleAction", c.IngAct)
+	}
+	if !(f.OmitEgress && c.EgrAct == 0 && !f.NeedsCorrelation()) && !has(omit, "egressNetworkPolicyRuleAction") {
 		u8("egressNetworkPolicyRuleAction", c.EgrAct)
 	}
-	els = append(els, entities.NewSigned32InfoElement(IE("ingressNetworkPolicyRulePriority"), c.Priority))
+	if !has(omit, "ingressNetworkPolicyRulePriority") {
+		els = append(els, entities.NewSigned32InfoElement(IE("ingressNetworkPolicyRulePriority"), c.Priority))
+	}
 	if r.HTTP != nil {
 		str("httpVals", *r.HTTP)
 	}
